@@ -303,6 +303,17 @@ FLAG_FORMS = [
     ("user-module-unqualified", "require evilmod unqualified; {ATTEMPT}"),
     ("bind-native-itself", "bind_native('bind_native', 'bn'); def checkerlang_secure_mode = FALSE; bn('file_delete'); {ATTEMPT}"),
     ("remove-from-ls", "def l = ls(); {ATTEMPT}"),
+    # compound assignments compile to calls of add/sub/mul/div/mod looked up by name: a program can redefine those
+    ("compound-add-redefined", "def add(a, b) FALSE; checkerlang_secure_mode += 1; {ATTEMPT}"),
+    ("compound-sub-redefined", "def sub(a, b) FALSE; checkerlang_secure_mode -= 1; {ATTEMPT}"),
+    ("compound-mul-redefined", "def mul(a, b) FALSE; checkerlang_secure_mode *= 1; {ATTEMPT}"),
+    ("compound-div-redefined", "def div(a, b) FALSE; checkerlang_secure_mode /= 1; {ATTEMPT}"),
+    ("compound-mod-redefined", "def mod(a, b) FALSE; checkerlang_secure_mode %= 1; {ATTEMPT}"),
+    ("compound-in-function", "def add(a, b) FALSE; def f() do checkerlang_secure_mode += 1 end; f(); {ATTEMPT}"),
+    ("compound-in-eval", "def add(a, b) FALSE; eval('checkerlang_secure_mode += 1'); {ATTEMPT}"),
+    ("member-style", "def o = <*x = 1*>; o->checkerlang_secure_mode = FALSE; {ATTEMPT}"),
+    ("index-style", "def m = <<<>>>; m['checkerlang_secure_mode'] = FALSE; {ATTEMPT}"),
+    ("equals-redefined", "def equals(a, b) TRUE; def not_equals(a, b) FALSE; {ATTEMPT}"),
 ]
 
 
